@@ -135,7 +135,10 @@ class ImmuneSystem:
             structure_hash=peptide.structure_hash,
         )
 
-        if recalled is not None:
+        # A remembered threat is a second signal, never a substitute for the first:
+        # it only answers while the watcher is not anergic and the current
+        # fingerprint violates the baseline.
+        if recalled is not None and not tcell.is_anergic and tcell.profile.check(peptide):
             # Known threat - fast response
             return ImmuneResponse(
                 agent_id=agent_id,
